@@ -112,3 +112,24 @@ Proof. exact gen_idevice2_cost. Qed.
 Theorem C15_source_sdevice_cost : forall n c1 c2 c3 cap dep st e su (s p : list R), List.length s = n -> List.length p = n -> (0 < n)%nat ->
   SDevice_cost (A:=R) n c1 c2 c3 cap dep st e su s p = sdev_cost (sq_of c1 c2 c3 cap dep st e su) s p.
 Proof. exact gen_sdevice_cost. Qed.
+
+(* ---- the two instances agree on the CLASS-LEVEL model (Proofs/HomLeaf.v, Proofs/HomFn.v): what the correspondence evaluates on
+   exact rationals (vm_compute, compared with the implementation) maps through Q2R to what the theorems above, and those of
+   C01/C07/C14, speak about.  EVERY atomic kind, the ADevice function AST included; the only side condition is the executable fragment
+   of x ** b: integer exponents (IDevice, and every per-slot power curve inside a function AST); every horizon length.
+   mleaf / mfn map every parameter, bound and coefficient through Q2R. ---- *)
+From Coq Require Import QArith Qreals.
+From DK Require Import NumQ.
+From DK.Proofs Require Import Hom HomLeaf HomFn.
+Theorem C15_instances_agree_leaf_cost : forall (L : leafdev Q) (s p : list Q), exec_kind_all (ld_kind L) (List.length s) ->
+  Q2R (leaf_cost L s p) = leaf_cost (mleaf L) (rl s) (rl p).
+Proof. exact instances_agree_leaf_cost_all. Qed.
+Theorem C15_instances_agree_leaf_deriv : forall (L : leafdev Q) (s p : list Q), exec_kind_all (ld_kind L) (List.length s) ->
+  rl (leaf_deriv L s p) = leaf_deriv (mleaf L) (rl s) (rl p).
+Proof. exact instances_agree_leaf_deriv_all. Qed.
+Theorem C15_instances_agree_function_ast : forall (f : fn Q) (x : list Q), exec_fn f ->
+  Q2R (feval f x) = feval (mfn f) (rl x) /\ rl (fderiv f x) = fderiv (mfn f) (rl x).
+Proof. exact instances_agree_fn. Qed.
+Theorem C15_executable_kinds : forall (k : kind Q) n, exec_kind_all k n <->
+  match k with KI _ bp _ => forall i, (i < n)%nat -> exists z, pnth bp i = inject_Z z | KA f _ => exec_fn f | _ => True end.
+Proof. intros [] n; reflexivity. Qed.
